@@ -2,5 +2,5 @@ package main
 
 func init() {
 	reg("C17", propCfg{Pkg: "./props/c17", Rule: "reflection oracle: every node found by a generic reflection walk must be presented by astutil.Walk after its parent",
-		Assumptions: assume("the reflection walk (internal/dump.Nodes: every non-nil pointer implementing ast.Pos reachable through exported fields and slices) defines 'every node of the tree'", "extra synthetic nodes presented by Walk (the CallExpr it fabricates for anonymous calls) are not forbidden by the statement and are ignored")})
+		Assumptions: assume("the reflection walk (internal/dump.Nodes: every non-nil pointer implementing ast.Pos reachable through exported fields and slices) defines 'every node of the tree'", "extra synthetic nodes presented by Walk (the CallExpr it fabricates for anonymous calls) are not forbidden by the statement and are ignored", "sub-check together: \"walking any tree produced by the parser\" covers a walk that runs while other goroutines walk the same tree (nothing writes to the tree; the statement makes no exception for what else reads it), so each of several simultaneous walks is judged like a solitary one")})
 }
